@@ -234,6 +234,9 @@ def run_c06(tier, seed):
         shared = rng.random() < 0.35
         cfg = base_cfg(rng, shared, rng.choice(['absent', 'inline', 'file', 'both']))
         cfg['txvia'] = rng.choice(['cache', 'cache', 'deque', 'index'])
+        if rng.random() < 0.3 and not any(o['op'] in ('push', 'pull', 'iter_open') for ops_ in prog.values() for o in ops_):
+            cfg['kind'] = 'fanout'           # FanoutCache.transact (one shard): every shard's transaction is entered
+            cfg['txvia'] = 'cache'
         jobs_dfs.append((cfg, prog, 2, 40 if tier == 'quick' else 300, seed, tid))
         tid += 1000
     # thread ownership: a second thread using the SAME object while the block is open
@@ -460,6 +463,44 @@ def run_c14(tier, seed):
                         'between the value-file write and BEGIN, and released after 0/1/3 failed attempts',
                         'DjangoCache timeout reporting is exercised in the C19 check (same FanoutCache code path)']
     return out.finish()
+
+
+# ---------------------------------------------------- C10 (concurrent half)
+def c10_concurrent(out, tier, seed):
+    """producers and consumers on shared queues: exactly-once delivery = linearizability against the queue operators"""
+    rng = random.Random(seed * 314606869 + 10)
+    jobs_dfs, jobs_rand = [], []
+    tid = 0
+    push = lambda v, p=(), back=1: op('push', v=v, p=list(p), back=back, ttl=[], tag=0)
+    pull = lambda p=(), back=0: op('pull', p=list(p), back=back, fx=0, ft=0)
+    peek = lambda p=(), back=0: op('peek', p=list(p), back=back, fx=0, ft=0)
+    INITS['q2'] = [push(1), push(F1)]
+    INITS['qa'] = [push(2, (97,)), push(F2, (97,)), push(3, (97, 45, 53))]
+    progs = [{1: [push(11)], 2: [pull()]}, {1: [pull()], 2: [pull()]}, {1: [push(11), push(12)], 2: [pull(), pull()]},
+             {1: [push(F3)], 2: [pull()], 3: [pull()]}, {1: [pull()], 2: [peek(), pull()]},
+             {1: [push(5, (97,))], 2: [pull((97,))], 3: [pull((97, 45, 53))]}, {1: [pull((), 1)], 2: [pull((), 0)]},
+             {1: [push(7, (), 0)], 2: [pull()]}]
+    for p in progs:
+        for init in ('absent', 'q2', 'qa'):
+            if tier == 'quick' and rng.random() < 0.45:
+                continue
+            cfg = base_cfg(rng, rng.random() < 0.3, init)
+            jobs_dfs.append((cfg, p, 2, 60 if tier == 'quick' else 400, seed, tid))
+            tid += 1000
+    for i in range(80 if tier == 'quick' else 2000):
+        ncl = rng.choice([2, 3, 3, 4])
+        prog = {}
+        for c_ in range(1, ncl + 1):
+            prefix = rng.choice([(), (), (97,)])
+            if c_ % 2:
+                prog[c_] = [push(100 * c_ + j, prefix) for j in range(rng.randint(1, 3))]
+            else:
+                prog[c_] = [rng.choice([pull(prefix), pull(prefix), peek(prefix), pull(prefix, 1)]) for _ in range(rng.randint(1, 3))]
+        cfg = base_cfg(rng, rng.random() < 0.3, rng.choice(['absent', 'q2', 'qa']))
+        jobs_rand.append((cfg, prog, rng.choice(['pct', 'random']), seed * 100000 + i, 0))
+    traces, verdicts = explore(out, jobs_dfs, jobs_rand)
+    report(out, 'C10', traces, verdicts, known_findings('C10'))
+    out.notes['concurrent_queue_schedules'] = len(traces)
 
 
 def run(prop, tier, seed):
